@@ -635,7 +635,7 @@ func init() {
 	fw.Register(&fw.Prop{
 		ID:    "C03",
 		Level: "exploration",
-		Rule:  "request catalogue from the independent grammar: every registered command with its valid shapes (each option word at least once, list arities 1..3, lower-case name), one surplus-argument shape, every option token alone and every ordered pair of option tokens for the 9 option-carrying commands (legal words, a sibling's word, an unknown word, a word without its value), every ill-formed shape of C10, unknown commands, handler errors, QUIT variants. Pipelines: every single request; all ordered pairs and triples over one representative per executor family + QUIT + unknown + argument error + handler error. Delivery: whole, EVERY 2-way split, 1-byte (singles, pairs; triples: whole, request-aligned, 1-byte; thorough: every 2-way split too, and all pipelines of four representatives whole, request-aligned and 1-byte). The reply/liveness invariant (#complete replies written == #complete requests delivered, in order, replies equal to the request's solo reply) is evaluated at every transport Read and at end of stream; a loop-iteration budget turns a spin into a verdict. Size ladder: the pipeline PING, ECHO <L bytes>, SET k <L bytes>, ECHO x for L = 2^k-1, 2^k, 2^k+1 (k=6..16, thorough 17) and 10^k-1..10^k+1 with frame-looking content: whole, every 2-way split within 8 bytes of each structural position (request boundaries, start and end of the large payload), strides 1/3/4096/32768. Configuration invariance: every catalogue request under {requirepass with AUTH first, tracer installed, connection over TLS, all three} must get the default configuration's reply and handler calls, and under requirepass without AUTH (tracer installed) exactly one reply and no handler call. Arity ladder: DEL/MGET/MSET/SADD/RPUSH/HMSET/ZADD with 255..4097 elements between PING and ECHO. Repeat part: every catalogue request (plus KEYS/SCAN MATCH with ill-formed and valid glob patterns) three times on one connection (X X PING X) against the bundled example store holding three elements per type, whole and 1-byte: one well-formed reply per request, PING answered at its position. The repeat part also carries 7 numeric edge values (0, +-1, 2, 2^31, MaxInt64, MinInt64) in every pair at the numeric positions of the range / LIMIT commands and singly for the count / cursor / amount / expiry commands. Kept-reply part: every catalogue request as X X PING X against a handler that returns the same reply object again, and one that has read its reply before returning it (count, order, liveness and reply type judged).",
+		Rule:  "request catalogue from the independent grammar: every registered command with its valid shapes (each option word at least once, list arities 1..3, lower-case name), one surplus-argument shape, every option token alone and every ordered pair of option tokens for the 9 option-carrying commands (legal words, a sibling's word, an unknown word, a word without its value), every ill-formed shape of C10, unknown commands, handler errors, QUIT variants. Pipelines: every single request; all ordered pairs and triples over one representative per executor family + QUIT + unknown + argument error + handler error. Delivery: whole, EVERY 2-way split, 1-byte (singles, pairs; triples: whole, request-aligned, 1-byte; thorough: every 2-way split too, and all pipelines of four representatives whole, request-aligned and 1-byte). The reply/liveness invariant (#complete replies written == #complete requests delivered, in order, replies equal to the request's solo reply) is evaluated at every transport Read and at end of stream; a loop-iteration budget turns a spin into a verdict. Size ladder: the pipeline PING, ECHO <L bytes>, SET k <L bytes>, ECHO x for L = 2^k-1, 2^k, 2^k+1 (k=6..16, thorough 17) and 10^k-1..10^k+1 with frame-looking content: whole, every 2-way split within 8 bytes of each structural position (request boundaries, start and end of the large payload), strides 1/3/4096/32768. Configuration invariance: every catalogue request under {requirepass with AUTH first, tracer installed, connection over TLS, all three} must get the default configuration's reply and handler calls, and under requirepass without AUTH (tracer installed) exactly one reply and no handler call. Arity ladder: DEL/MGET/MSET/SADD/RPUSH/HMSET/ZADD with 255..4097 elements between PING and ECHO. Repeat part: every catalogue request (plus KEYS/SCAN MATCH with ill-formed and valid glob patterns) three times on one connection (X X PING X) against the bundled example store holding three elements per type, whole and 1-byte: one well-formed reply per request, PING answered at its position. The repeat part also carries 7 numeric edge values (0, +-1, 2, 2^31, MaxInt64, MinInt64) in every pair at the numeric positions of the range / LIMIT commands and singly for the count / cursor / amount / expiry commands. Kept-reply part: every catalogue request as X X PING X against a handler that returns the same reply object again, and one that has read its reply before returning it (count, order, liveness and reply type judged). Requests whose arguments carry line breaks or format verbs where the server quotes them in an error reply; a handler error (also of the n-th call of a composite command) must become an error reply with the connection still usable.",
 		Assumptions: []string{
 			"replies are compared with the reply the same request gets when sent alone (stateless recording double with content-derived tokens)",
 			"pipelines longer than 3 are not explored",
